@@ -28,7 +28,8 @@ type Term struct {
 	Sort     string
 	Bound    []*Term // quantifier-bound variables
 	id       int
-	hasBound bool
+	hasBound bool  // some bound variable occurs free in the term
+	free     []int // ids of the bound variables occurring free (sorted, small)
 }
 
 type Decl struct {
@@ -72,13 +73,28 @@ func (p *TermPool) mk(op, name, sort string, args []*Term, bound []*Term) *Term 
 	p.next++
 	t := &Term{Op: op, Name: name, Sort: sort, Args: args, Bound: bound, id: p.next}
 	if op == "bound" {
-		t.hasBound = true
+		t.free = []int{t.id}
 	}
 	for _, a := range args {
-		if a.hasBound {
-			t.hasBound = true
+		for _, f := range a.free {
+			dup := false
+			for _, g := range t.free {
+				if g == f {
+					dup = true
+				}
+			}
+			binds := false
+			for _, b := range bound {
+				if b.id == f {
+					binds = true
+				}
+			}
+			if !dup && !binds {
+				t.free = append(t.free, f)
+			}
 		}
 	}
+	t.hasBound = len(t.free) > 0
 	p.tab[k] = t
 	return t
 }
@@ -1089,6 +1105,13 @@ func Script(asserts []*Term, getValues []*Term, real bool) string {
 				}
 			}
 		}
+	}
+	if usedDecl["sconcat"] {
+		sb.WriteString("(assert (forall ((a!s Str) (b!s Str)) (! (= (slen (sconcat a!s b!s)) (+ (slen a!s) (slen b!s))) :pattern ((sconcat a!s b!s)))))\n")
+		sb.WriteString("(assert (forall ((a!s Str) (b!s Str) (j!s Int)) (! (= (sat (sconcat a!s b!s) j!s) (ite (< j!s (slen a!s)) (sat a!s j!s) (sat b!s (- j!s (slen a!s))))) :pattern ((sat (sconcat a!s b!s) j!s)))))\n")
+	}
+	if usedDecl["ssub"] {
+		sb.WriteString("(assert (forall ((a!s Str) (l!s Int) (h!s Int) (j!s Int)) (! (=> (and (<= 0 l!s) (<= l!s h!s) (<= h!s (slen a!s)) (<= 0 j!s) (< j!s (- h!s l!s))) (= (sat (ssub a!s l!s h!s) j!s) (sat a!s (+ l!s j!s)))) :pattern ((sat (ssub a!s l!s h!s) j!s)))))\n")
 	}
 	if usedDecl["strlt"] {
 		// strict string order is asymmetric and irreflexive
